@@ -480,6 +480,13 @@ impl AuthenticationAdapter for SimAuth {
             }),
             AuthRes::Error => Err(sim_err()),
         };
+        // a sanctioned account (the session service lists pending moderative actions): names that begin with "Sanct"
+        let res = res.map(|mut p: Profile| {
+            if p.name.starts_with("Sanct") {
+                p.profile_actions = vec!["FORCED_NAME_CHANGE".to_string()];
+            }
+            p
+        });
         self.sh.world.lock().unwrap().ev(
             "svc:auth",
             "done",
